@@ -485,6 +485,7 @@ type Axiom struct {
 
 type Alias struct {
 	Name, Func, ResType string
+	Index               int
 }
 
 type Specs struct {
@@ -667,10 +668,14 @@ func (S *Specs) LoadFile(path string, extern bool) error {
 			}
 		case "alias":
 			f := strings.Fields(rest)
-			if len(f) != 2 || cur == nil {
-				return fail(fmt.Errorf("alias <name> <result type>"))
+			if (len(f) != 2 && len(f) != 3) || cur == nil {
+				return fail(fmt.Errorf("alias <name> <result type> [result index]"))
 			}
-			S.Aliases[f[0]] = &Alias{Name: f[0], Func: cur.Func, ResType: f[1]}
+			al := &Alias{Name: f[0], Func: cur.Func, ResType: f[1]}
+			if len(f) == 3 {
+				al.Index, _ = strconv.Atoi(f[2])
+			}
+			S.Aliases[f[0]] = al
 		case "pure":
 			cur.Pure = true
 			cur.HasAssign = true
